@@ -64,6 +64,29 @@ def match_table(rexes, strings):
     return table, ambiguous
 
 
+def match_tables(rexes, strings):
+    """-> list of match tables, one per admissible reading of "matches":
+    [strict] when fullmatch and re.match agree everywhere, otherwise
+    [strict, loose].  (rexpy's documentation does not define "matches";
+    tdda's own rex verification uses re.match, under which `$` also matches
+    before one final newline; C03 speaks of matching in full.  Where the two
+    differ a figure may follow either reading.)"""
+    strict = []
+    loose = []
+    differ = False
+    for r in rexes:
+        c = re.compile(anchored(r), FLAGS)
+        rs, rl = {}, {}
+        for s in strings:
+            rs[s] = c.fullmatch(s) is not None
+            rl[s] = c.match(s) is not None
+            if rs[s] != rl[s]:
+                differ = True
+        strict.append(rs)
+        loose.append(rl)
+    return [strict, loose] if differ else [strict]
+
+
 def weight(kept, s, dedup):
     return 1 if dedup else kept[s]
 
